@@ -115,6 +115,7 @@ func Dispatch(pkg, svc, method string, args []interface{}, ret interface{}) erro
 type svcExchange struct {
 	req, rep  []byte
 	unread    int
+	unflushed int
 	ok        bool
 	err       string
 	panicked  string
@@ -139,7 +140,10 @@ func (t *svcLoop) Flush(ctx context.Context) (err error) {
 	t.ex = append(t.ex, x)
 	in := thrift.NewTMemoryBuffer()
 	in.Write(x.req)
+	// the reply goes through a buffering transport, as on a real server: what
+	// the processor does not flush never reaches the client
 	out := thrift.NewTMemoryBuffer()
+	outT := thrift.NewTBufferedTransport(out, 1<<20)
 	func() {
 		defer func() {
 			if r := recover(); r != nil {
@@ -147,7 +151,7 @@ func (t *svcLoop) Flush(ctx context.Context) (err error) {
 				err = errors.New("processor panicked")
 			}
 		}()
-		ok, perr := t.proc.Process(ctx, thrift.NewTBinaryProtocol(in, true, true), thrift.NewTBinaryProtocol(out, true, true))
+		ok, perr := t.proc.Process(ctx, thrift.NewTBinaryProtocol(in, true, true), thrift.NewTBinaryProtocol(outT, true, true))
 		x.ok = ok
 		if perr != nil {
 			x.err = perr.Error()
@@ -155,6 +159,8 @@ func (t *svcLoop) Flush(ctx context.Context) (err error) {
 	}()
 	x.unread = in.Len()
 	x.rep = append([]byte{}, out.Bytes()...)
+	outT.Flush(ctx)
+	x.unflushed = out.Len() - len(x.rep)
 	t.r.Write(x.rep)
 	return err
 }
@@ -367,7 +373,7 @@ func init() {
 			}
 			exs := []interface{}{}
 			for _, x := range tr.ex {
-				xe := map[string]interface{}{"req": hex.EncodeToString(x.req), "rep": hex.EncodeToString(x.rep), "unread": x.unread, "ok": x.ok, "err": x.err}
+				xe := map[string]interface{}{"req": hex.EncodeToString(x.req), "rep": hex.EncodeToString(x.rep), "unread": x.unread, "unflushed": x.unflushed, "ok": x.ok, "err": x.err}
 				if x.panicked != "" {
 					xe["panic"] = x.panicked
 				}
